@@ -68,6 +68,11 @@ def systematic():
                 [{"op": "change", "user": "alice", "pw": "p2"}, L("alice", "p1"), L("alice", "p2")] + gone + [L("alice", "p2"), L("alice", "p1")]})
     out.append({"origin": "one-refused-one-answers", "steps": [L("alice", "p1"), S(1, "refused"), L("alice", "p1"), {"op": "change", "user": "alice", "pw": "p2"},
                                                                L("alice", "p1"), S(2, "refused"), L("alice", "p1"), L("alice", "p2"), S(1, "up"), L("alice", "p2")]})
+    # the FIRST server answers (and rejects the stale password still in the cache), the LAST one does not answer: what the
+    # one that answered said is final, whichever position it has in the configured list (round 8, C07-15)
+    for st in ("down", "err", "refused"):
+        out.append({"origin": "first-answers-last-" + st, "steps": [L("alice", "p1"), {"op": "change", "user": "alice", "pw": "p2"}, S(2, st), L("alice", "p1"),
+                                                                     S(1, st), L("alice", "p1"), L("alice", "p2"), S(1, "up"), L("alice", "p2"), S(1, st), L("alice", "p2")]})
     SY, DO, DR = {"op": "sync"}, {"op": "dboutage"}, {"op": "dbrecover"}
     out.append({"origin": "replica-serves-during-store-outage", "steps": [L("alice", "p1"), SY] + down + [DO, L("alice", "p1"), L("alice", "p2"), DR] + up + [L("alice", "p1")]})
     out.append({"origin": "evicted-hash-leaves-replica", "steps": [L("alice", "p1"), SY, {"op": "change", "user": "alice", "pw": "p2"}, L("alice", "p1"), SY] + down +
